@@ -238,7 +238,63 @@ def check_stream(part: Part, names, stream, cfg, two_cuts, bytewise):
                                dict(case, cuts=list(cuts)))
 
 
+HISTORY_N = 1300        # more frames than the smallest fragment cap (1024)
+
+
+def history_check(part: Part, cfg, shape):
+    """One long-lived connection: HISTORY_N small frames, each arriving as `shape` says, read by a prompt consumer.
+    State left behind by one frame must not accumulate over the life of the connection."""
+    kind, masked, cut = shape
+    proto = _Proto()
+    q = WebSocketDataQueue(proto, 2 ** 16, loop=None)
+    r = WebSocketReader(q, cfg["max_msg_size"], cfg["compress"], cfg["decode_text"])
+    op = {"binary": 2, "text": 1, "ping": 9}[kind]
+    payload = b"x" * (1 if cut != "mid" else 4)
+    frame = F(op, payload, mask=M if masked else None)
+    hdr = len(frame) - len(payload)
+    cutpos = {"header|payload": hdr, "header-1": hdr - 1, "mid": hdr + 2, "whole": None}[cut]
+    case = {"kind": "history", "cfg": cfg, "shape": list(shape)}
+    got = 0
+    for i in range(HISTORY_N):
+        for seg in ([frame] if cutpos is None else [frame[:cutpos], frame[cutpos:]]):
+            try:
+                r.feed_data(seg)
+            except BaseException as e:  # noqa: BLE001
+                part.violation(f"C12:exception-escapes:{type(e).__name__}", f"history {shape} frame {i}: {e!r}", case)
+                return
+            if proto._reading_paused and not q._buffer:
+                part.violation("C12:history:reader-stalls-connection",
+                               f"{cfg} {shape}: after frame {i} the reader paused the transport with nothing queued for the application - "
+                               f"nothing will ever resume it ({len(r._payload_fragments)} retained fragments)", case)
+                return
+        while q._buffer:
+            m = q._read_from_buffer()
+            if bytes(m.data if not isinstance(m.data, str) else m.data.encode()) != payload:
+                part.violation("C12:history:payload-differs", f"{cfg} {shape}: frame {i} delivered as {m.data!r}", case)
+                return
+            got += 1
+        held = len(r._partial) + sum(len(f) for f in r._payload_fragments) + len(r._tail) + 8 * len(r._payload_fragments)
+        if held > 64:
+            part.violation("C12:history:retained-state-grows",
+                           f"{cfg} {shape}: {held} bytes of reader state (incl. list slots) retained between frames after {i + 1} frames", case)
+            return
+    part.count("executions")
+    part.count("transitions", HISTORY_N)
+    part.state(("history", repr(cfg), shape))
+    part.outcome(("history", got))
+    if got != HISTORY_N:
+        part.violation("C12:history:messages-lost", f"{cfg} {shape}: {got} of {HISTORY_N} frames delivered", case)
+
+
+HISTORY_SHAPES = [(k, m, c) for k in ("binary", "text", "ping") for m in (False, True) for c in ("header|payload", "header-1", "mid", "whole")]
+
+
 def _job(job):
+    if job[0] == "history":
+        part = Part()
+        for shape in HISTORY_SHAPES:
+            history_check(part, job[1], shape)
+        return part
     cfg, seqs, two, bytewise = job
     T = tokens(cfg)
     part = Part()
@@ -285,6 +341,8 @@ def run(ctx):
             jobs.append((cfg, d2[i:i + 150], True, True))
         for i in range(0, len(d3), 300):
             jobs.append((cfg, d3[i:i + 300], not ctx.quick, True))
+    for cfg in (CONFIGS[:5] if ctx.quick else CONFIGS):
+        jobs.append(("history", cfg))
     for part in ctx.pmap(_job, jobs):
         ctx.merge(part)
     ctx.notes["configs"] = (CONFIGS[:5] if ctx.quick else CONFIGS)
@@ -292,6 +350,10 @@ def run(ctx):
 
 def replay(case):
     cfg = case["cfg"]
+    if case.get("kind") == "history":
+        part = Part()
+        history_check(part, cfg, tuple(case["shape"]))
+        return part.violations
     T = tokens(cfg)
     names = case["tokens"]
     stream = b"".join(T[n] for n in names)
